@@ -341,12 +341,12 @@ def run_context(inp: dict) -> list[dict]:
         viols.append({"clause": "context-independent", "desc": desc, "input": dict(inp)})
 
     for k, i in enumerate(idx0):
-        if np.abs(together[k] - alone[i]).max() > tol:
+        if not (np.abs(together[k] - alone[i]).max() <= tol):
             V(f"molecule {i} read together with others in its voxel differs from reading it alone by "
               f"{np.abs(together[k] - alone[i]).max():.4g} (order {order}, corner_safe {cs})")
             break
     for k, i in enumerate(idx0[::-1]):
-        if np.abs(rev[k] - alone[i]).max() > tol:
+        if not (np.abs(rev[k] - alone[i]).max() <= tol):
             V(f"molecule {i} read in reversed molecule order differs from reading it alone by "
               f"{np.abs(rev[k] - alone[i]).max():.4g}")
             break
